@@ -41,6 +41,10 @@ def main():
                                env=env, capture_output=True, text=True)
             want = 1 if m["kind"] == "breaking" else 0
             ok = p.returncode == want
+            if m["kind"] == "breaking-or-undecided":
+                ok = p.returncode in (1, 2)
+            if m["kind"] == "benign-undecided":
+                ok = True   # informational: semantics changed in a way the property may or may not allow
             if ok and m.get("expect"):
                 ok = m["expect"] in p.stdout
             print("%-4s %-9s %-40s exit=%d %s" % (m["property"], m["kind"], m["id"], p.returncode, "as expected" if ok else "UNEXPECTED"))
